@@ -822,3 +822,22 @@ Definition check_C20_sess_complete (must : list (N * msg)) (outs : list uout) : 
   let d := flat_map u_dlv outs in
   forallb (fun x => list_eqb meqb (stream_of (fst x) (sender_of (snd x)) d)
                                   (stream_of (fst x) (sender_of (snd x)) must)) must.
+
+(* a Terminate frame about pid q stops the remote reference of q only: every other remote reference
+   that was alive before the frame is alive after it ([terms]: per operation, the pid a Terminate frame
+   was about, if the operation was one) — whatever the pid NUMBERS are, in particular when q equals
+   the local pid of one of the session's own children *)
+Definition alive_of (o : uout) (q : N) : bool :=
+  existsb (fun x => N.eqb (fst (fst x)) q && snd (fst x)) (u_px o).
+Fixpoint check_term_local (prev : option uout) (terms : list (option N)) (outs : list uout) : bool :=
+  match terms, outs with
+  | t :: tr, o :: orest =>
+    (match t, prev with
+     | Some q, Some p =>
+       forallb (fun x => let q' := fst (fst x) in N.eqb q' q || negb (snd (fst x)) || alive_of o q') (u_px p)
+     | _, _ => true
+     end) && check_term_local (Some o) tr orest
+  | _, _ => true
+  end.
+Definition check_C20_sess_term (terms : list (option N)) (outs : list uout) : bool :=
+  check_term_local None terms outs.
